@@ -2189,8 +2189,15 @@ fn split_unsigned_range(
         let head = p.first().unwrap();
         let Pattern(head_enum, _, _) = head;
         match head_enum {
-            PatternEnum::NumUnsigned(n, _) => split_points.push(*n as u128),
-            PatternEnum::NumSigned(n, _) if *n >= 0 => split_points.push(*n as u128),
+            // (a number pattern is the range from the number up to the number itself)
+            PatternEnum::NumUnsigned(n, _) => {
+                split_points.push(*n as u128);
+                split_points.push(*n as u128 + 1);
+            }
+            PatternEnum::NumSigned(n, _) if *n >= 0 => {
+                split_points.push(*n as u128);
+                split_points.push(*n as u128 + 1);
+            }
             PatternEnum::UnsignedInclusiveRange(min, max, _) => {
                 split_points.push(*min as u128);
                 split_points.push(*max as u128 + 1);
@@ -2209,29 +2216,17 @@ fn split_unsigned_range(
     split_points.sort_unstable();
     split_points.dedup();
     let mut ranges = vec![];
+    // No pattern starts or ends inside of the range between two neighbouring split points, so each
+    // of these ranges is one case (splitting them any further makes the check exponential in the
+    // number of columns):
     for range in split_points.windows(2) {
-        if range[0] < range[1] - 1 {
+        if range[0] >= min as u128 && range[1] - 1 <= max as u128 {
+            // `range[1]` can be 2^64 (one past the maximum of u64), so subtract before truncating:
             ranges.push(Ctor::UnsignedInclusiveRange(
                 ty,
                 range[0] as u64,
-                range[0] as u64,
+                (range[1] - 1) as u64,
             ));
-        }
-        if range[0] >= min as u128 && range[1] - 1 <= max as u128 {
-            // `range[1]` can be 2^64 (one past the maximum of u64), so subtract before truncating:
-            if range[0] < range[1] - 1 {
-                ranges.push(Ctor::UnsignedInclusiveRange(
-                    ty,
-                    range[0] as u64 + 1,
-                    (range[1] - 1) as u64,
-                ));
-            } else {
-                ranges.push(Ctor::UnsignedInclusiveRange(
-                    ty,
-                    range[0] as u64,
-                    (range[1] - 1) as u64,
-                ));
-            }
         }
     }
     ranges
@@ -2248,8 +2243,14 @@ fn split_signed_range(
         let head = p.first().unwrap();
         let Pattern(head_enum, _, _) = head;
         match head_enum {
-            PatternEnum::NumUnsigned(n, _) => split_points.push(*n as i128),
-            PatternEnum::NumSigned(n, _) => split_points.push(*n as i128),
+            PatternEnum::NumUnsigned(n, _) => {
+                split_points.push(*n as i128);
+                split_points.push(*n as i128 + 1);
+            }
+            PatternEnum::NumSigned(n, _) => {
+                split_points.push(*n as i128);
+                split_points.push(*n as i128 + 1);
+            }
             PatternEnum::UnsignedInclusiveRange(min, max, _) => {
                 split_points.push(*min as i128);
                 split_points.push(*max as i128 + 1);
@@ -2265,27 +2266,12 @@ fn split_signed_range(
     split_points.dedup();
     let mut ranges = vec![];
     for range in split_points.windows(2) {
-        if range[0] < range[1] - 1 {
+        if range[0] >= min as i128 && range[1] - 1 <= max as i128 {
             ranges.push(Ctor::SignedInclusiveRange(
                 ty,
                 range[0] as i64,
-                range[0] as i64,
+                (range[1] - 1) as i64,
             ));
-        }
-        if range[0] >= min as i128 && range[1] - 1 <= max as i128 {
-            if range[0] < range[1] - 1 {
-                ranges.push(Ctor::SignedInclusiveRange(
-                    ty,
-                    range[0] as i64 + 1,
-                    (range[1] - 1) as i64,
-                ));
-            } else {
-                ranges.push(Ctor::SignedInclusiveRange(
-                    ty,
-                    range[0] as i64,
-                    (range[1] - 1) as i64,
-                ));
-            }
         }
     }
     ranges
